@@ -92,6 +92,7 @@ def rule_implicit_wiring(rep: Report, repo: Repo):
     loc2 = lambda n: repo.loc("algorithm_parsing", n)
     from .resolve import env_at as _ea, resolved as _res
     from .sem import Scope as _Scope, canon as _canon, outcomes as _outcomes
+    from .paths import eval_bool as _eb
     low = [d for d in nested_defs(sc) if d.name == "linear_operator_wrapped" and d in sc.body]
     ok = len(low) == 1 and len(low[0].args.args) == 1
     if ok:
@@ -113,9 +114,20 @@ def rule_implicit_wiring(rep: Report, repo: Repo):
     rep.check(bool(ok), RULE, "algorithm_parsing::series_computation linear-operator view wraps the same element of the original series",
               "", loc2(low[0] if low else sc))
     d = [x for x in nested_defs(sc) if x.name == "del_"]
-    pops = [norm(n) for n in own_nodes(d[0]) if isinstance(n, ast.Call) and isinstance(n.func, ast.Attribute) and n.func.attr == "pop"] if d else []
-    ok = sorted(pops) == sorted(["series[series_name].pop(index, None)", "linear_operator_series[series_name].pop(index, None)"])
-    rep.check(ok, RULE, "algorithm_parsing::series_computation del_ drops the term from both caches", str(pops), loc2(d[0] if d else sc))
+    if len(d) != 1 or len(d[0].args.args) != 2:
+        raise AnalysisError(RULE, "series_computation: del_(series_name, index) not found")
+    NP, IP = (a_.arg for a_ in d[0].args.args)
+    per_path = []
+    for o in _outcomes(d[0].body, None, env={}, expand=False):
+        pops = sorted(norm(rv) for kind, st, rv in o.seq if kind == "stmt" and isinstance(rv, ast.Call) and isinstance(rv.func, ast.Attribute)
+                      and rv.func.attr == "pop")
+        if any(kind == "stmt" and isinstance(st, (ast.For, ast.While, ast.Try)) for kind, st, rv in o.seq):
+            raise AnalysisError(RULE, "del_: a loop that is not over a display of known length")
+        if pops:
+            per_path.append(pops)
+    want = sorted([f"series[{NP}].pop({IP}, None)", f"linear_operator_series[{NP}].pop({IP}, None)"])
+    ok = bool(per_path) and all(p_ == want for p_ in per_path)
+    rep.check(ok, RULE, "algorithm_parsing::series_computation del_ drops the term from both caches", str(per_path), loc2(d[0]))
     # products: one loop over the two families, each product built from the same family's factors
     loops = [n for n in own_nodes(sc) if isinstance(n, ast.For) and isinstance(n.target, ast.Name) and isinstance(n.iter, (ast.Tuple, ast.List))
              and [norm(e) for e in n.iter.elts] == ["series", "linear_operator_series"]]
@@ -125,7 +137,7 @@ def rule_implicit_wiring(rep: Report, repo: Repo):
         outer = getattr(loops[0], "_parent", None)
         P = outer.target.id if isinstance(outer, ast.For) and isinstance(outer.target, ast.Name) and norm(outer.iter) == "products" else None
         stores = [st for st in own_nodes(loops[0]) if isinstance(st, ast.Assign) and isinstance(st.targets[0], ast.Subscript) and norm(st.targets[0].value) == W]
-        ok = P is not None and len(stores) == 1 and norm(stores[0].targets[0].slice) == f"{P}.name"
+        ok = P is not None and len(stores) == 1 and rtext(stores[0].targets[0].slice, _ea(stores[0], sc)) == f"{P}.name"
         if ok:
             v = _canon(_res(stores[0].value, _ea(stores[0], sc)))
             ok = isinstance(v, ast.Call) and call_name(v) == "cauchy_dot_product" and len(v.args) == 1 and isinstance(v.args[0], ast.Starred) \
@@ -133,7 +145,7 @@ def rule_implicit_wiring(rep: Report, repo: Repo):
             if ok:
                 fac = v.args[0].value
                 ok = isinstance(fac, (ast.GeneratorExp, ast.ListComp)) and len(fac.generators) == 1 and not fac.generators[0].ifs \
-                    and norm(fac.generators[0].iter) == f"{P}.terms" and norm(fac.elt) == f"{W}[{norm(fac.generators[0].target)}]"
+                    and norm(fac.generators[0].iter) == f"{P}.terms" and norm(fac.elt) in (f"{W}[{norm(fac.generators[0].target)}]", f"{W}[_v0]")
     rep.check(bool(ok), RULE, "algorithm_parsing::series_computation products are built identically for plain and linear-operator series",
               "same factor names, operator and hermitian flag", loc2(loops[0] if loops else sc))
     # every computed series gets its linear-operator view: linear_operator_series[term.name] = linear_operator_wrapped(<the series stored under term.name>)
@@ -150,21 +162,44 @@ def rule_implicit_wiring(rep: Report, repo: Repo):
     ini = [n for n in own_nodes(sc) if isinstance(n, ast.Assign) and norm(n.targets[0]) == "linear_operator_series"]
     ok = len(ini) == 1 and rtext(ini[0].value, {}) == "{_v0: linear_operator_wrapped(_v1) for _v0, _v1 in series.items()}"
     rep.check(ok, RULE, "algorithm_parsing::series_computation every input series gets its linear-operator view", "", loc2(ini[0] if ini else sc))
-    es = [n for n in own_nodes(sc) if isinstance(n, ast.Assign) and norm(n.targets[0]) == "eval_scope" and isinstance(n.value, ast.Dict)]
-    if len(es) != 1:
-        raise AnalysisError(RULE, "eval_scope not found")
-    dd = {k.value: norm(v) for k, v in zip(es[0].value.keys, es[0].value.values) if isinstance(k, ast.Constant)}
-    ok = dd.get("use_linear_operator") == "np.zeros(shape, dtype=bool)" and dd.get("offdiag") == "None"
+    from .e9 import exec_scope_table, rule_exec_scope
+    entries, user_last, es_node, has_user = exec_scope_table(repo, RULE)
+    es = [es_node]
+    env_es = _ea(es_node, sc)
+    ulo = entries.get("use_linear_operator")
+    SH = norm(_res(ast.Name(id="shape", ctx=ast.Load()), env_es))  # what the block grid of the series is
+    ok = ulo is not None and norm(_res(ulo, env_es)) in (f"np.zeros({SH}, dtype=bool)", f"np.zeros({SH}, bool)", f"np.zeros({SH}, dtype=np.bool_)",
+                                                         f"np.full({SH}, False)") \
+        and "offdiag" in entries and norm(entries["offdiag"]) == "None"
     rep.check(ok, RULE, "algorithm_parsing::series_computation exec scope defaults: no block is a LinearOperator, no off-diagonal selection",
-              "", loc2(es[0]))
+              f"use_linear_operator = {norm(ulo) if ulo is not None else 'missing'}; offdiag = {norm(entries['offdiag']) if 'offdiag' in entries else 'missing'}", loc2(es[0]))
     # the names the generated code calls (series, del_, sentinels, Dagger, _zero_sum, _safe_divide): decided semantically
-    from .e9 import rule_exec_scope
     rule_exec_scope(rep, repo)
-    dg = dd.get("diag")
-    rep.check(dg == "lambda x, index: x[index] if isinstance(x, BlockSeries) else x", RULE,
-              "algorithm_parsing::series_computation default `diag` is the identity selection", str(dg), loc2(es[0]))
+    # default `diag`: the identity selection -- x[index] for a series argument, x itself otherwise (lambda or nested def)
+    dg = entries.get("diag")
+    fn = None
+    if isinstance(dg, ast.Lambda):
+        fn = ast.FunctionDef(name="diag", args=dg.args, body=[ast.Return(value=dg.body)], decorator_list=[])
+    elif isinstance(dg, ast.Name):
+        cands = [d_ for d_ in nested_defs(sc) if d_.name == dg.id]
+        fn = cands[0] if len(cands) == 1 else None
+    if fn is None or len(fn.args.args) != 2:
+        raise AnalysisError(RULE, f"default `diag` (`{norm(dg)[:60] if dg is not None else 'missing'}`) is not a two-parameter lambda / nested function")
+    X_, I_ = (a_.arg for a_ in fn.args.args)
+    table = {}
+    for is_series in (True, False):
+        atom = lambda n, is_series=is_series: is_series if norm(n) == f"isinstance({X_}, BlockSeries)" else None
+        vals = set()
+        for o in _outcomes(fn.body, None, env={}, atom=atom, expand=False):
+            if o.kind != "return":
+                raise AnalysisError(RULE, "default `diag`: path without return")
+            if any(_eb(t_, atom) is None for t_, _p in o.conds):
+                raise AnalysisError(RULE, f"default `diag`: condition `{norm(o.conds[0][0])[:50]}` not understood")
+            vals.add(norm(o.value))
+        table[is_series] = sorted(vals)
+    rep.check(table == {True: [f"{X_}[{I_}]"], False: [X_]}, RULE,
+              "algorithm_parsing::series_computation default `diag` is the identity selection", str(table), loc2(es[0]))
     # user scope overrides come last
-    keys = es[0].value.keys
-    rep.check(keys and keys[-1] is None, RULE, "algorithm_parsing::series_computation user scope is merged last (may override defaults)", "", loc2(es[0]))
+    rep.check(has_user and user_last, RULE, "algorithm_parsing::series_computation user scope is merged last (may override defaults)", "", loc2(es[0]))
     from .e9 import rule_start_data
     rule_start_data(rep, repo, all_programs=False)
